@@ -3,6 +3,7 @@ package checks
 import (
 	"encoding/json"
 	"fmt"
+	"math/big"
 	"reflect"
 	"strconv"
 	"strings"
@@ -199,6 +200,9 @@ func canConform(s *ref.Schema, ty *ref.Type, v interface{}) bool {
 		}
 		present := map[string]bool{}
 		for _, key := range rv.MapKeys() {
+			if c14TolerateTypename && key.String() == "__typename" {
+				continue
+			}
 			var fd *ref.FieldDef
 			for _, f := range def.Fields {
 				if f.Name == key.String() {
@@ -310,6 +314,9 @@ func conforms(s *ref.Schema, ty *ref.Type, v interface{}, path string) string {
 		present := map[string]bool{}
 		for _, key := range rv.MapKeys() {
 			name := key.String()
+			if c14TolerateTypename && name == "__typename" {
+				continue
+			}
 			var fd *ref.FieldDef
 			for _, f := range def.Fields {
 				if f.Name == name {
@@ -338,6 +345,84 @@ type c14Decl struct {
 	name       string
 	ty         *ref.Type
 	hasDefault bool
+	def        *ref.Value
+}
+
+// representsLiteral: does Go value got represent the constant literal lit? Everything written in
+// the literal must be there with the same value (an input object may carry additional keys for
+// fields that have defaults of their own; a single value may have become a list of one). It
+// returns "" or the reason.
+func representsLiteral(lit *ref.Value, got interface{}, path string) string {
+	rv := reflect.ValueOf(got)
+	isNil := got == nil || ((rv.Kind() == reflect.Ptr || rv.Kind() == reflect.Interface) && rv.IsNil())
+	if lit.Kind == "Null" {
+		if !isNil {
+			return fmt.Sprintf("%s: the default is null, the result holds %v", path, got)
+		}
+		return ""
+	}
+	if isNil {
+		return fmt.Sprintf("%s: the default is %s, the result holds null", path, lit.Kind)
+	}
+	if lit.Kind != "List" && rv.Kind() == reflect.Slice && rv.Len() == 1 {
+		return representsLiteral(lit, rv.Index(0).Interface(), path+"[0]")
+	}
+	switch lit.Kind {
+	case "List":
+		if rv.Kind() != reflect.Slice {
+			return fmt.Sprintf("%s: the default is a list, the result holds %T", path, got)
+		}
+		if rv.Len() != len(lit.Items) {
+			return fmt.Sprintf("%s: the default list has %d items, the result %d", path, len(lit.Items), rv.Len())
+		}
+		for i, it := range lit.Items {
+			if m := representsLiteral(it, rv.Index(i).Interface(), fmt.Sprintf("%s[%d]", path, i)); m != "" {
+				return m
+			}
+		}
+	case "Object":
+		if rv.Kind() != reflect.Map {
+			return fmt.Sprintf("%s: the default is an input object, the result holds %T", path, got)
+		}
+		for _, f := range lit.Fields {
+			e := rv.MapIndex(reflect.ValueOf(f.Name))
+			if !e.IsValid() {
+				return fmt.Sprintf("%s: key %s of the default is missing from the result", path, f.Name)
+			}
+			if m := representsLiteral(f.Value, e.Interface(), path+"."+f.Name); m != "" {
+				return m
+			}
+		}
+	case "Int", "Float":
+		want, ok := new(big.Float).SetString(lit.Raw)
+		var have *big.Float
+		switch rv.Kind() {
+		case reflect.Int, reflect.Int32, reflect.Int64:
+			have = new(big.Float).SetInt64(rv.Int())
+		case reflect.Float32, reflect.Float64:
+			have = big.NewFloat(rv.Float())
+		case reflect.String:
+			have, _ = new(big.Float).SetString(rv.String())
+		}
+		if !ok || have == nil {
+			return fmt.Sprintf("%s: the default is the number %s, the result holds %T %v", path, lit.Raw, got, got)
+		}
+		// equal up to float64 rounding of the literal
+		wf, _ := want.Float64()
+		hf, _ := have.Float64()
+		if wf != hf {
+			return fmt.Sprintf("%s: the default is %s, the result holds %v", path, lit.Raw, got)
+		}
+	case "Boolean":
+		if rv.Kind() != reflect.Bool || rv.Bool() != (lit.Raw == "true") {
+			return fmt.Sprintf("%s: the default is %s, the result holds %v", path, lit.Raw, got)
+		}
+	case "String", "Block", "Enum":
+		if rv.Kind() != reflect.String || rv.String() != lit.Raw {
+			return fmt.Sprintf("%s: the default is %q, the result holds %v", path, lit.Raw, got)
+		}
+	}
+	return ""
 }
 
 // declsOf reads the declared variables back from the query text with the reference parser.
@@ -352,12 +437,30 @@ func declsOf(query string) []c14Decl {
 	}
 	var out []c14Decl
 	for _, v := range d.Ops[0].Vars {
-		out = append(out, c14Decl{v.Name, v.Type, v.Default != nil})
+		out = append(out, c14Decl{v.Name, v.Type, v.Default != nil, v.Default})
 	}
 	return out
 }
 
+// c14TolerateTypename: relaxation for the recorded finding typename-key-passed-through (a key
+// named exactly __typename in an input object is neither rejected nor removed).
+var c14TolerateTypename bool
+
 func c14Eval(c c14Case) (viol string, known []string, accepted bool) {
+	c14TolerateTypename = false
+	viol, known, accepted = c14EvalStrict(c)
+	if viol != "" && kit.KFOpen("C14", "typename-key-passed-through") && strings.Contains(fmt.Sprint(c.Vars), "__typename") {
+		c14TolerateTypename = true
+		v2, k2, a2 := c14EvalStrict(c)
+		c14TolerateTypename = false
+		if v2 == "" {
+			return "", append(k2, "typename-key-passed-through"), a2
+		}
+	}
+	return viol, known, accepted
+}
+
+func c14EvalStrict(c c14Case) (viol string, known []string, accepted bool) {
 	schema, err := libLoadSchema(c.Schema)
 	if err != nil {
 		return "", nil, false
@@ -423,6 +526,12 @@ func c14Eval(c c14Case) (viol string, known []string, accepted bool) {
 				return fmt.Sprintf("variable $%s of type %s is absent from the result although coercion succeeded", d.name, d.ty), nil, true
 			}
 			continue
+		}
+		if _, supplied := vars[d.name]; !supplied && d.def != nil {
+			// an absent variable takes its default
+			if m := representsLiteral(d.def, val, "$"+d.name); m != "" {
+				return "no value was supplied and the result is not the declared default: " + m, known, true
+			}
 		}
 		if m := conforms(rl.schema, d.ty, val, "$"+d.name); m != "" {
 			// recorded deviations
